@@ -452,8 +452,84 @@ def grid_argument_cases(ctx):
     ctx.count("programs whose device calls take a zone / a filled copy / another filled copy as constants (6 routes x both branches)", n)
 
 
+CAPTURED_SRC = """
+@move{DEC}
+def main(x: float):
+    FWD(x, 2.0)
+    BWD(x, 2.0)
+    BWD(b=1.0, a=x)
+    with schedule.parallel():
+        BWD(1.0, 2.0)
+        FWD(1.0, 2.0)
+        schedule.reverse(BWD)(2.0, 1.0)
+"""
+
+CLOSURE_SRC = """
+@move{DEC}
+def main(x: float):
+    f = schedule.device_fn(ka, [0, 1], [0])
+    def inner(k: int):
+        # device calls and a block inside a local function that captures nothing but the device function
+        f(1.0, 2.0)
+        with schedule.parallel():
+            f(2.0, 1.0)
+            schedule.reverse(f)(b=2.0, a=1.0)
+        return k
+    r = inner(1)
+    f(x, 2.0)
+    q = inner(2)
+"""
+
+
+def captured_functions_and_closures(ctx):
+    """device functions BUILT ON THE HOST and captured by the kernel (a forward one and a reversed one), and device calls / blocks inside a
+    local function that captures only the device function: every call is played as the path of its own call, in its own direction"""
+    from kirin.dialects import ilist
+    from bloqade.shuttle.dialects.path import Path
+    from bloqade.shuttle.dialects.schedule import DeviceFunction, ReverseDeviceFunction
+    from gen import tweezer_prog
+    from props import tracer_common as tc
+    from vcommon import events
+    S = tweezer_prog.harness_spec()
+    ka = kernels.define(KA_SRC)["ka"]
+    FWD = DeviceFunction(move_fn=ka, x_tones=ilist.IList([0, 1]), y_tones=ilist.IList([0]))
+    BWD = ReverseDeviceFunction(FWD)
+
+    def P(a, b, rev):
+        ref = tc.ref_trace(tc.run_native(KA_SRC, "ka", (a, b), S)[1])
+        return Path(ilist.IList([0, 1]), ilist.IList([0]), tc.concrete_path(tc.rev_abs(ref) if rev else ref))
+    events._register()
+    G = lambda *ms: events.Group("parallel", tuple(ms))
+    progs = {"captured": (CAPTURED_SRC, [("play", P(1.5, 2.0, False)), ("play", P(1.5, 2.0, True)), ("play", P(1.5, 1.0, True)),
+                                         ("play", G(P(1.0, 2.0, True), P(1.0, 2.0, False), P(2.0, 1.0, False)))]),
+             "closure": (CLOSURE_SRC, [("play", P(1.0, 2.0, False)), ("play", G(P(2.0, 1.0, False), P(1.0, 2.0, True))), ("play", P(1.5, 2.0, False)),
+                                       ("play", P(1.0, 2.0, False)), ("play", G(P(2.0, 1.0, False), P(1.0, 2.0, True)))])}
+    n = 0
+    for pname, (tsrc, want_evs) in progs.items():
+        want = events.events_text(want_evs, tc.PosTable())
+        for dec, plain in (("", False), ("(fold=False)", False), ("(arch_spec=S)", True), ("(arch_spec=S, fold=False)", True), ("(arch_spec=S)", False), ("(arch_spec=S, aggressive=True)", True)):
+            src = tsrc.replace("{DEC}", dec)
+            rep = {"captured_or_closure_src": src, "program": pname, "plain": plain}
+            ctx.evaluations += 1
+            n += 1
+            try:
+                m = kernels.define(src, ka=ka, S=S, FWD=FWD, BWD=BWD)["main"]
+                st, evs, extra = events.run_events(m, (1.5,), S, plain=plain)
+            except Exception as e:
+                st, evs, extra = "err", [], f"definition failed: {type(e).__name__}: {e}"
+            got = events.events_text(evs, tc.PosTable()) if st == "ok" else ["ERR " + str(extra)[:100]]
+            if got != want:
+                k = next((j for j in range(min(len(got), len(want))) if got[j] != want[j]), min(len(got), len(want)))
+                ctx.fail({"kind": "played-path-is-not-the-path-of-its-call", "decorator": dec, "operands": pname}, rep,
+                         f"@move{dec} ({pname}): play {k} is {(got[k] if k < len(got) else '<none>')[:120]} but the source says {(want[k] if k < len(want) else '<none>')[:120]}")
+            else:
+                ctx.nt(("captured-or-closure", pname, dec, plain))
+    ctx.count("programs with host-built device functions / device calls inside a local function (6 routes)", n)
+
+
 def run(ctx):
     grid_argument_cases(ctx)
+    captured_functions_and_closures(ctx)
     ctx.rule = ("move kernels mixing device calls (positional/keyword in permuted order, forward/reversed/inline-reversed callees), nested "
                 "parallel/auto blocks, gates, fills, measurements, if/for: ALL nesting shapes up to depth/width/call bounds (quick 2/2/4, "
                 "thorough 3/3/5) as single-block kernels, plus random programs with blocks nested up to depth 4; the compiled IR is abstracted "
@@ -506,6 +582,15 @@ def run(ctx):
 
 
 def replay(data):
+    if "captured_or_closure_src" in data["input"]:
+        class C:
+            def __init__(s): s.fails, s.evaluations = [], 0
+            def fail(s, sig, rep, what): s.fails.append(what)
+            def nt(s, *a): pass
+            def count(s, *a): pass
+        c = C()
+        captured_functions_and_closures(c)
+        return bool(c.fails), (c.fails or ["every call plays the path of its own call"])[0][:200]
     if "grid_argument_src" in data["input"]:
         class C:
             def __init__(s): s.fails, s.evaluations = [], 0
